@@ -17,12 +17,16 @@ def _switch_allows(ft, b, succ, assume):
         return True
     discr = ft.switch_term(b)
     v = assume.get(_norm(discr))
+    vals, other = switch_edge_values(t, succ)
+    excl = [int(x) for x, bb in t["targets"] if bb != succ]
     if v is None:
+        rng = assume.get(("inrange", _norm(discr)))
+        if rng is not None and rng[1] - rng[0] <= 64:
+            # `match x { 0 => .., _ => .. }` on a variable known to lie in a small range
+            return any(val in vals or (other and val not in excl) for val in range(rng[0], rng[1] + 1))
         v = fold_cmp(discr, assume)
         if v is None:
             return True
-    vals, other = switch_edge_values(t, succ)
-    excl = [int(x) for x, bb in t["targets"] if bb != succ]
     return v in vals or (other and v not in excl)
 
 
@@ -208,6 +212,7 @@ def regime_assumptions(ft, var, lo, hi, extra=None):
     definite truth value for all var in [lo, hi].  Returns {stripped discr term: 0/1}."""
     var = strip_site(var)
     out = dict(extra or {})
+    out[("inrange", var)] = (lo, hi)       # for plain `match var { c => .., _ => .. }` switches
     for b in sorted(ft.cfg.reach):
         t = ft.blocks[b]["term"]
         if t["k"] != "switch":
@@ -1192,3 +1197,82 @@ def return_sites(ft):
     for rb in ft.return_blocks():
         go(ft.return_term(rb), rb, 0)
     return out
+
+
+# ---------------------------------------------------------------------- symbolic items of iterator pipelines
+
+def pipe_item(facts, ft, src, space=None, depth=0, counter=None):
+    """(item term, generators, adaptors) of an iterator pipeline expression `src` written in function `ft`:
+    generators = [(symbol, source term)], one per independent traversal (ranges, collections) in nesting order; the item
+    is a term over those symbols, captured variables resolved to the function that owns the outermost expression.
+    `space` maps terms of `ft` (when ft is a closure body) into that outermost function.  Understands iter / into_iter /
+    copied / cloned / by_ref, zip, enumerate, map and flat_map with closures (nested to any depth).  None otherwise."""
+    if depth > 12:
+        return None
+    counter = counter if counter is not None else [0]
+    space = space or (lambda t: t)
+    x = src
+    while x[0] in ("ref", "deref"):
+        x = x[2] if x[0] == "ref" else x[1]
+
+    def fresh(source):
+        counter[0] += 1
+        return ("gen", counter[0]), source
+    if x[0] == "agg" and isinstance(x[2], str) and x[2].startswith("std::ops::Range::"):
+        g, s_ = fresh(space(x))
+        return g, [(g, s_)], ["range"]
+    if x[0] == "call" and isinstance(x[1], str) and x[2]:
+        short = x[1].split("::")[-1]
+        if short in ("into_iter", "iter", "iter_mut", "copied", "cloned", "by_ref"):
+            inner = x[2][0]
+            y = inner
+            while y[0] in ("ref", "deref"):
+                y = y[2] if y[0] == "ref" else y[1]
+            if (y[0] == "call" and isinstance(y[1], str) and y[1].split("::")[-1] in ("map", "flat_map", "zip", "enumerate", "into_iter", "iter", "copied", "cloned", "by_ref")) \
+                    or (y[0] == "agg" and isinstance(y[2], str) and y[2].startswith("std::ops::Range::")):
+                r = pipe_item(facts, ft, inner, space, depth + 1, counter)
+                if r is None:
+                    return None
+                return r[0], r[1], r[2] + [short]
+            g, s_ = fresh(space(inner))
+            return g, [(g, s_)], [short]
+        if short == "enumerate":
+            r = pipe_item(facts, ft, x[2][0], space, depth + 1, counter)
+            if r is None:
+                return None
+            return ("agg", "tuple", "", (("genidx", r[0]), r[0]), ()), r[1], r[2] + ["enumerate"]
+        if short == "zip" and len(x[2]) == 2:
+            r1 = pipe_item(facts, ft, x[2][0], space, depth + 1, counter)
+            r2 = pipe_item(facts, ft, x[2][1], space, depth + 1, counter)
+            if r1 is None or r2 is None:
+                return None
+            return ("agg", "tuple", "", (r1[0], r2[0]), ()), r1[1] + r2[1], r1[2] + r2[2] + ["zip"]
+        if short in ("map", "flat_map") and len(x[2]) == 2:
+            r = pipe_item(facts, ft, x[2][0], space, depth + 1, counter)
+            clos = x[2][1]
+            while clos[0] in ("ref", "deref"):
+                clos = clos[2] if clos[0] == "ref" else clos[1]
+            if r is None or clos[0] != "agg" or clos[1] != "closure" or clos[2] not in facts.fns:
+                return None
+            it, gens, ads = r
+            fcl = fn_terms(facts, clos[2])
+            caps = clos[3]
+            rbs = fcl.return_blocks()
+            if len(rbs) != 1:
+                return None
+
+            def into_outer(t, _caps=caps, _it=it):
+                # closure-body term -> term of the function that created the closure -> outermost function
+                m = {("param", 2): _it}
+                for i_, cv in enumerate(_caps):
+                    m[("field", ("deref", ("param", 1)), i_)] = space(cv)
+                    m[("field", ("param", 1), i_)] = space(cv)
+                return subst_terms(strip_site(t), m)
+            body = fcl.return_term(rbs[0])
+            if short == "map":
+                return into_outer(body), gens, ads + ["map"]
+            r2 = pipe_item(facts, fcl, body, into_outer, depth + 1, counter)
+            if r2 is None:
+                return None
+            return r2[0], gens + r2[1], ads + r2[2] + ["flat_map"]
+    return None
